@@ -24,6 +24,17 @@ def self_fields(prog, cls, fnode, depth=0, seen=None):
   return out
 
 
+def _source_fields(prog, call):
+  """field -> argument text of a Source(...) call, positional arguments mapped through Source.__init__'s parameter list."""
+  ps = prog.func(V, 'Source.__init__').params[1:]
+  kw = dict((k.arg, U(k.value)) for k in call.keywords if k.arg)
+  for p_, a in zip(ps, call.args):
+    if isinstance(a, ast.Starred):
+      return {}
+    kw[p_] = U(a)
+  return kw
+
+
 def check(ctx):
   prog = ctx.prog
   ctx.rule('C18.R1', 'every class with a field-based __hash__ defines __eq__ over the same fields (hash/eq agreement of dict keys)')
@@ -249,8 +260,8 @@ def r2(ctx):
   ctor = [c for c in walk_no_nested(d.node) if isinstance(c, ast.Call) and U(c.func) == 'Source']
   ok = False
   if len(ctor) == 1:
-    kw = dict((k.arg, U(k.value)) for k in ctor[0].keywords)
-    ok = kw.get('method') == 'source.method' and kw.get('service') == 'source.service' and kw.get('endpoint') == 'endpoint' and not ctor[0].args
+    kw = _source_fields(prog, ctor[0])
+    ok = kw.get('method') == 'source.method' and kw.get('service') == 'source.service' and kw.get('endpoint') == 'endpoint' and set(kw) <= {'method', 'service', 'endpoint'}
   ctx.ob('C18.R2', d, 'per-reply Source copies method, service and the endpoint string', ok, 'per-reply Source is %s' % (U(ctor[0]) if ctor else None),
          'replies from the same endpoint must land in the same series')
   # every reply of a tracked call (a call dispatched with a source) is recorded: latency once, and success or exception once -- whatever the endpoint is
@@ -301,7 +312,7 @@ def r2(ctx):
           n_src += 1
           src = sym_resolve(sdm[0].args[1], sym_env(ev, i)) if len(sdm[0].args) > 1 else None
           if isinstance(src, ast.Call) and U(src.func) == 'Source':
-            kw = dict((k.arg, U(k.value)) for k in src.keywords)
+            kw = _source_fields(prog, src)
             if not (kw.get('service') == 'self._name' and kw.get('method') == dm.params[1]):
               bad.append(U(src))
           else:
